@@ -4,13 +4,16 @@ use crate::engine::PropDef;
 pub mod c01;
 pub mod c02;
 pub mod c03;
+pub mod c04;
+pub mod c04_sched;
+pub mod c05;
 pub mod c07;
 pub mod c07_m128;
 pub mod c09;
 pub mod factoring;
 
 pub fn all() -> Vec<PropDef> {
-    vec![c01::DEF, c02::DEF, c03::DEF, c07::DEF, c09::DEF]
+    vec![c01::DEF, c02::DEF, c03::DEF, c04::DEF, c05::DEF, c07::DEF, c09::DEF]
 }
 
 pub fn find(id: &str) -> Option<PropDef> {
